@@ -356,8 +356,10 @@ def _check(pre, cg, aa):
                     rec('C12', 'c12.atomname_format', f'{tag} atom {n} ({d.get("element")}) is named {an!r}')
                     break
     # library immutability
+    if set(pre['fragment_dict']) != set(templates):
+        rec('C12', 'c12.library_modified', f'{tag} the fragment library passed in had entries {sorted(templates)} and has {sorted(pre["fragment_dict"])} after resolve()')
     for name, g in pre['fragment_dict'].items():
-        if snap_graph(g) != templates[name]:
+        if name in templates and snap_graph(g) != templates[name]:
             rec('C12', 'c12.library_modified', f'{tag} fragment {name!r} of the library was modified by resolve()')
     # ------------------------------------------------------------------ C15 stored node references
     for n, lst in aa.nodes(data='ez_isomer'):
